@@ -43,6 +43,12 @@ def variant_catalogue():
     add("four_acbd", [I("a", 1), I("c", 1), I("b", 1), I("d", 1)])        # same formats, same first/last names, inner names swapped
     add("mix_abcd", [I("a", 2), I("b", 1), I("c", 1, True), I("d", 2)], {"annotate": False})
     add("mix_acbd", [I("a", 2), I("c", 1), I("b", 1, True), I("d", 2)], {"annotate": False})
+    # edits that a weak (additive / order-insensitive) cookie cannot tell apart: the same characters moved to mirrored positions
+    add("sym_2442", [I("a", 2), I("b", 4), I("c", 4), I("d", 2)])
+    add("sym_4224", [I("a", 4), I("b", 2), I("c", 2), I("d", 4)])
+    # field names outside ASCII (valid Python 3 identifiers), swapped
+    add("uni_ab", [I("\u03b1", 1), I("\u03b2", 2)])
+    add("uni_ba", [I("\u03b2", 1), I("\u03b1", 2)])
     add("data", [I("n", 1), {"k": "data", "name": "d", "size": ["field", "n"], "incl": False}, I("t", 1)])
     add("marker", [{"k": "data", "name": "d", "size": ["marker", b"\r\n"], "incl": False}, I("t", 1)])
     add("seq", [I("n", 1), {"k": "seq", "name": "s", "elem": I("_", 1), "count": ["field", "n"]}])
@@ -104,7 +110,7 @@ def write_family(dirpath, V):
                     line += ".describe(AutoLength(%r))" % f["describe"][1] if f["describe"][0] == "autolength" else ".describe(Plain())"
                 src.append("        %s = %s\n" % (f["name"], line))
             src.append("    return %s\n\n" % p["name"])
-        with open(os.path.join(dirpath, m + ".py"), "w") as fh:
+        with open(os.path.join(dirpath, m + ".py"), "w", encoding="utf-8") as fh:
             fh.write("".join(src))
 
 
